@@ -92,10 +92,14 @@ func (c *Config) Token(ctx context.Context) (*TokenInfo, error) {
 
 func (c *Config) calculateCacheKey() string {
 	digest := sha256.New()
+	// the separators ensure, that different configurations cannot result in the same sequence of bytes
 	digest.Write(stringx.ToBytes(c.ClientID))
+	digest.Write([]byte{0})
 	digest.Write(stringx.ToBytes(c.ClientSecret))
+	digest.Write([]byte{0})
 	digest.Write(stringx.ToBytes(c.TokenURL))
-	digest.Write(stringx.ToBytes(strings.Join(c.Scopes, "")))
+	digest.Write([]byte{0})
+	digest.Write(stringx.ToBytes(strings.Join(c.Scopes, " ")))
 
 	return hex.EncodeToString(digest.Sum(nil))
 }
@@ -234,10 +238,14 @@ func (c *Config) Apply(_ context.Context, req *http.Request) error {
 
 func (c *Config) Hash() []byte {
 	digest := sha256.New()
+	// the separators ensure, that different configurations cannot result in the same sequence of bytes
 	digest.Write(stringx.ToBytes(c.ClientID))
+	digest.Write([]byte{0})
 	digest.Write(stringx.ToBytes(c.ClientSecret))
+	digest.Write([]byte{0})
 	digest.Write(stringx.ToBytes(c.TokenURL))
-	digest.Write(stringx.ToBytes(strings.Join(c.Scopes, "")))
+	digest.Write([]byte{0})
+	digest.Write(stringx.ToBytes(strings.Join(c.Scopes, " ")))
 
 	return digest.Sum(nil)
 }
